@@ -135,10 +135,13 @@ class Report:
         for r in self.rules:
             print("%s %s: %d instance(s) (floor %d), %d/%d obligations discharged"
                   % (self.pid, r.id, len(r.instances), r.floor, r.discharged, r.obligations))
-        if broken:
+        if broken and not new:
+            # a floor protects against passing vacuously; a concrete new finding is reported as such
             for b in broken:
                 print("ANALYSIS-BROKEN property=%s %s" % (self.pid, b))
             return 2
+        for b in broken:
+            print("NOTE property=%s %s" % (self.pid, b))
         for f in old:
             print("KNOWN-FINDING: property=%s %s %s/%s: %s"
                   % (self.pid, f["rule"], f["function"], f["construct"], f["message"]))
